@@ -18,7 +18,7 @@ RULE = ("(CNF F, transformation, parameters): all CNFs with <= 2 variables and <
         "transformed formula <= 16 (quick) / 20 (thorough) variables; distinct = (F, transformation, parameters); trivial = F without clauses.")
 ASSUMPTIONS = ["vmon/tt.py truth tables (self-checked)", "gadget functions of this module (xor, or, majority = at least half, "
                "all-equal, exactly-one, thresholds, if-then-else, selection) are the documented ones"]
-REQUIRED = ["library_calls", "cli_calls", "exact_cases", "compression_cases", "lifting_cases", "empty_clause_inputs", "sampled_cases", "sampled_assignments",
+REQUIRED = ["library_calls", "cli_calls", "exact_cases", "compression_cases", "lifting_cases", "empty_clause_inputs", "sampled_cases", "sampled_assignments", "named_variable_inputs",
             "unused_variable_inputs"] + ["t_" + t for t in ("xor", "or", "maj", "eq", "neq", "one", "exact", "atleast", "atmost",
                                                              "anybut", "ite", "lift", "flip", "xorcomp", "majcomp")]
 CASE_TIMEOUT = {"quick": 300, "thorough": 1800}
@@ -206,8 +206,9 @@ def transformations_for(N, cap, r=None, tier="quick"):
     """All (kind, params) whose result stays under the cap."""
     out = []
     for kind in ("xor", "or", "maj", "eq", "neq", "one"):
-        for k in range(1, 5):
-            if N * k <= cap:
+        for k in range(1, 12):
+            # wide gadgets (9-11 inputs) only where the formula has a single variable: 2^(k-1) clauses per literal
+            if N * k <= cap and (k <= 4 or N == 1):
                 out.append((kind, [k]))
     for kind in ("exact", "atleast", "atmost", "anybut"):
         for n_ in range(1, 5):
@@ -238,16 +239,64 @@ def small_cnfs():
     return out
 
 
-def build_input(N, clauses):
+def build_input(N, clauses, names=None):
+    """names: None (anonymous variables) or a list of N labels (possibly with repetitions)."""
     from cnfgen.formula.cnf import CNF
     F = CNF(description="C05 input")
-    F.update_variable_number(N)
+    if names is None:
+        F.update_variable_number(N)
+    else:
+        for nm in names:
+            F.new_variable(nm)
     for c in clauses:
         F.add_clause(list(c))
     return F
 
 
+def case_named(ctx, rseed, count):
+    """Inputs whose variables have names -- distinct, repeated, or ambiguous like kcolor's x_{111}."""
+    tt.selfcheck()
+    cap = 16 if ctx.tier == "quick" else 20
+    r = ctx.rng("c05named", rseed)
+    for _ in range(count):
+        N = r.randint(1, 4)
+        style = r.choice(["distinct", "repeated", "repeated", "ambiguous"])
+        if style == "distinct":
+            names = ["v%d" % i for i in range(1, N + 1)]
+        elif style == "repeated":
+            names = [r.choice(["y", "y", "z", "x_{1}"]) for _ in range(N)]
+        else:
+            names = ["x_{111}"] * N
+        cls = [[r.choice([1, -1]) * r.randint(1, N) for _ in range(r.choice([1, 2, 2, 3]))] for _ in range(r.randint(1, 4))]
+        ts = [t for t in transformations_for(N, cap) if t[0] in ("lift", "xor", "or", "ite", "maj", "flip", "one")]
+        ts = [t for t in ts if not too_costly(t[0], t[1], cls)]
+        for kind, params in r.sample(ts, min(len(ts), 5)):
+            F = build_input(N, cls, names)
+            label = "%s%r on CNF(%d vars named %r, %r)" % (kind, params, N, names, cls)
+            st, T = ctx.call(apply_library, kind, params, F)
+            ctx.count("library_calls")
+            ctx.count("named_variable_inputs")
+            ctx.count("t_" + kind)
+            if st == "exc":
+                ctx.violation("%s:raises:%s" % (kind, type(T).__name__), "%s raised %r" % (label, T))
+                continue
+            judge(ctx, N, cls, kind, params, T, "library-named:" + style, label)
+
+
+def too_costly(kind, params, clauses):
+    """Gadgets with five or more inputs are applied to unit clauses only (2^(k-1) clauses per literal otherwise multiply)."""
+    if not any(len(c) > 1 for c in clauses):
+        return False
+    if kind in ("xor", "or", "maj", "eq", "neq", "one", "exact", "atleast", "atmost", "anybut", "lift"):
+        return bool(params) and params[0] > 4
+    if kind in ("xorcomp", "majcomp"):
+        return max([len(ns) for ns in params[0]] or [0]) > 4
+    return False
+
+
 def run_one(ctx, N, clauses, kind, params):
+    if too_costly(kind, params, clauses):
+        return              # substitutions distribute over clauses: gadgets with 5+ inputs on unit clauses only
     F = build_input(N, clauses)
     if N > F.number_of_variables():
         return
@@ -338,6 +387,7 @@ def case_cli(ctx, rseed, count):
                     f.write(" ".join(map(str, c + [0])) + "\n")
             ts = [t for t in transformations_for(N, cap)
                   if not (t[0] in ("exact", "atleast", "atmost", "anybut") and t[1][1] < 1)]   # the command line wants K >= 1
+            ts = [t for t in ts if not too_costly(t[0], t[1], cls)]
             for kind, params in r.sample(ts, min(len(ts), 5)):
                 argv = ["cnfgen", "-q", "dimacs", path, "-T", kind] + [str(p) for p in params]
                 label = " ".join(argv[:3] + ["<%d vars %r>" % (N, cls)] + argv[4:])
@@ -386,7 +436,11 @@ def workload(tier, seed):
         yield "seeded", {"rseed": seed * 10000 + i, "count": 12}
     for i in range(16 if tier == "quick" else 400):
         yield "sampled", {"rseed": seed * 10000 + i, "count": 25}
+    for i in range(8 if tier == "quick" else 120):
+        yield "named", {"rseed": seed * 10000 + i, "count": 20}
     for fn in ("xorcomp", "majcomp"):
+        for R in (9, 10, 11):
+            yield "compression", {"L": 1, "R": R, "masks": [(1 << R) - 1, (1 << R) - 2, (1 << (R - 1)) - 1], "fn": fn}
         for (L, R) in ((1, 1), (1, 3), (2, 2), (2, 3), (3, 2), (3, 4), (2, 4)):
             nm = 1 << (L * R)
             if nm <= 256:
